@@ -56,15 +56,19 @@ type verifUDPConn struct {
 	port int
 }
 
-func (c *verifUDPConn) RemoteAddr() net.Addr                                   { return nil }
-func (c *verifUDPConn) SetReadBuffer(int) error                                { return nil }
-func (c *verifUDPConn) SetWriteBuffer(int) error                               { return nil }
-func (c *verifUDPConn) Read([]byte) (int, error)                               { return 0, errVerifWrite }
-func (c *verifUDPConn) ReadFromUDP([]byte) (int, *net.UDPAddr, error)          { return 0, nil, errVerifWrite }
-func (c *verifUDPConn) ReadMsgUDP(b, o []byte) (int, int, int, *net.UDPAddr, error) { return 0, 0, 0, nil, errVerifWrite }
-func (c *verifUDPConn) Write([]byte) (int, error)                              { return 0, errVerifWrite }
-func (c *verifUDPConn) WriteToUDP([]byte, *net.UDPAddr) (int, error)           { return 0, errVerifWrite }
-func (c *verifUDPConn) WriteMsgUDP(b, o []byte, a *net.UDPAddr) (int, int, error) { return 0, 0, errVerifWrite }
+func (c *verifUDPConn) RemoteAddr() net.Addr                          { return nil }
+func (c *verifUDPConn) SetReadBuffer(int) error                       { return nil }
+func (c *verifUDPConn) SetWriteBuffer(int) error                      { return nil }
+func (c *verifUDPConn) Read([]byte) (int, error)                      { return 0, errVerifWrite }
+func (c *verifUDPConn) ReadFromUDP([]byte) (int, *net.UDPAddr, error) { return 0, nil, errVerifWrite }
+func (c *verifUDPConn) ReadMsgUDP(b, o []byte) (int, int, int, *net.UDPAddr, error) {
+	return 0, 0, 0, nil, errVerifWrite
+}
+func (c *verifUDPConn) Write([]byte) (int, error)                    { return 0, errVerifWrite }
+func (c *verifUDPConn) WriteToUDP([]byte, *net.UDPAddr) (int, error) { return 0, errVerifWrite }
+func (c *verifUDPConn) WriteMsgUDP(b, o []byte, a *net.UDPAddr) (int, int, error) {
+	return 0, 0, errVerifWrite
+}
 
 type verifNet struct {
 	ifaces   []*transport.Interface
@@ -103,19 +107,31 @@ func (n *verifNet) ListenUDP(network string, a *net.UDPAddr) (transport.UDPConn,
 	n.conns = append(n.conns, c)
 	return c, nil
 }
-func (n *verifNet) ListenPacket(string, string) (net.PacketConn, error)            { return nil, transport.ErrNotSupported }
-func (n *verifNet) ListenTCP(string, *net.TCPAddr) (transport.TCPListener, error)  { return nil, transport.ErrNotSupported }
-func (n *verifNet) Dial(string, string) (net.Conn, error)                          { return nil, transport.ErrNotSupported }
+func (n *verifNet) ListenPacket(string, string) (net.PacketConn, error) {
+	return nil, transport.ErrNotSupported
+}
+func (n *verifNet) ListenTCP(string, *net.TCPAddr) (transport.TCPListener, error) {
+	return nil, transport.ErrNotSupported
+}
+func (n *verifNet) Dial(string, string) (net.Conn, error) { return nil, transport.ErrNotSupported }
 func (n *verifNet) DialUDP(string, *net.UDPAddr, *net.UDPAddr) (transport.UDPConn, error) {
 	return nil, transport.ErrNotSupported
 }
 func (n *verifNet) DialTCP(string, *net.TCPAddr, *net.TCPAddr) (transport.TCPConn, error) {
 	return nil, transport.ErrNotSupported
 }
-func (n *verifNet) ResolveIPAddr(string, string) (*net.IPAddr, error)   { return nil, transport.ErrNotSupported }
-func (n *verifNet) ResolveUDPAddr(string, string) (*net.UDPAddr, error) { return nil, transport.ErrNotSupported }
-func (n *verifNet) ResolveTCPAddr(string, string) (*net.TCPAddr, error) { return nil, transport.ErrNotSupported }
-func (n *verifNet) InterfaceByIndex(int) (*transport.Interface, error)  { return nil, transport.ErrInterfaceNotFound }
+func (n *verifNet) ResolveIPAddr(string, string) (*net.IPAddr, error) {
+	return nil, transport.ErrNotSupported
+}
+func (n *verifNet) ResolveUDPAddr(string, string) (*net.UDPAddr, error) {
+	return nil, transport.ErrNotSupported
+}
+func (n *verifNet) ResolveTCPAddr(string, string) (*net.TCPAddr, error) {
+	return nil, transport.ErrNotSupported
+}
+func (n *verifNet) InterfaceByIndex(int) (*transport.Interface, error) {
+	return nil, transport.ErrInterfaceNotFound
+}
 func (n *verifNet) InterfaceByName(string) (*transport.Interface, error) {
 	return nil, transport.ErrInterfaceNotFound
 }
